@@ -109,6 +109,7 @@ Record ds_consts := {
   cg_line_sep : list byte; cg_file_max : N;
   rp_key_name : list byte; rp_key_ppid : list byte; rp_unknown : list byte; rp_root_pid : N; rp_zero_pid : N; rp_val_max : N;
   rp_path_fmt : list byte; rp_start_is_getpid : bool;
+  rp_value_verbatim : bool;      (* the value is what follows the single separator byte, minus the final newline byte: no trimming *)
   dt_default_fmt : list byte; dt_buf : N;
   cfg_version : list byte; cfg_configure_command : list byte; path_max : N; login_name_max : N
 }.
@@ -721,7 +722,7 @@ Definition cg_consts_ok (c : ds_consts) : bool :=
 Definition rp_consts_ok (c : ds_consts) : bool :=
   list_eqb (rp_key_name c) (lit "Name") && list_eqb (rp_key_ppid c) (lit "PPid") && list_eqb (rp_unknown c) (lit "(unknown)")
   && N.eqb (rp_root_pid c) 1 && N.eqb (rp_zero_pid c) 0 && list_eqb (rp_path_fmt c) (lit "/proc/%d/status") && rp_start_is_getpid c
-  && N.leb 65 (rp_val_max c).
+  && N.leb 65 (rp_val_max c) && rp_value_verbatim c.
 
 Definition misc_consts_ok (c : ds_consts) : bool :=
   (N.ltb 0 (path_max c) && N.ltb 1 (login_name_max c) && N.ltb 1 (dt_buf c) && negb (Nat.eqb (length (dt_default_fmt c)) 0))%bool.
